@@ -23,8 +23,12 @@ RULE = ("binnify: every chromsizes table with <=2 (quick) / <=3 (thorough) chrom
         "of length <=5 (quick) / <=7 (thorough), plus random tables with up to 4 chromosomes incl. longer-last-bin tables; "
         "non-trivial = table with at least one chromosome of >=2 bins or a length that is not a multiple of the width; distinct by input hash")
 TRUSTED = ["pandas groupby/drop_duplicates/concat are observed through util.get_binsize/get_chromsizes, not modelled separately"]
-ASSUMPTIONS = ["int(np.ceil(clen / binsize)) equals exact ceiling division for coordinates < 2^53 (exercised up to 2^31-1)"]
-RESIDUE = ["float division inside binnify (np.ceil(clen / binsize)) is modelled as exact ceil-div"]
+# standard-library axioms behind Coq's classical real numbers (used only by the binary64 division theorem, via Flocq)
+ALLOW_AXIOMS = ("ClassicalDedekindReals.sig_not_dec", "ClassicalDedekindReals.sig_forall_dec",
+                "FunctionalExtensionality.functional_extensionality_dep", "Classical_Prop.classic")
+ASSUMPTIONS = ["numpy float64 true division is the correctly rounded IEEE-754 binary64 quotient (then C20_binary64_bin_count_exact PROVES that "
+               "int(np.ceil(clen / binsize)) is the exact ceiling division for operands < 2^53; exercised up to 2^31-1)"]
+RESIDUE = ["float division inside binnify: exactness below 2^53 is a theorem (Flocq); operands >= 2^53 are outside the claim"]
 
 
 def impl_binnify(sizes, b):
